@@ -248,7 +248,7 @@ func (g *ModGraph) Chain(parent map[*ssa.Function]*Edge, fn *ssa.Function) strin
 
 type SinkHit struct {
 	Fn    *ssa.Function
-	Instr ssa.Instruction
+	Instr ssa.CallInstruction
 	Label string
 }
 
@@ -270,18 +270,16 @@ type Unguarded struct {
 // Lift computes, for every in-scope function, the sinks that can execute
 // without the guard having been established locally or by any caller edge
 // below that function. Result: needs[F] = sink → one witness chain.
-func (g *ModGraph) Lift(spec GuardSpec, funcs []*ssa.Function) (sinks []SinkHit, needs map[*ssa.Function]map[ssa.Instruction][]string) {
-	needs = map[*ssa.Function]map[ssa.Instruction][]string{}
-	label := map[ssa.Instruction]string{}
+func (g *ModGraph) Lift(spec GuardSpec, funcs []*ssa.Function) (sinks []SinkHit, needs map[*ssa.Function]map[ssa.CallInstruction][]string) {
+	needs = map[*ssa.Function]map[ssa.CallInstruction][]string{}
 	for _, fn := range funcs {
 		if !spec.InScope(fn) {
 			continue
 		}
-		needs[fn] = map[ssa.Instruction][]string{}
+		needs[fn] = map[ssa.CallInstruction][]string{}
 		allCalls(fn, func(c ssa.CallInstruction) {
 			if l, ok := spec.IsSink(c); ok {
 				sinks = append(sinks, SinkHit{Fn: fn, Instr: c, Label: l})
-				label[c] = l
 				if !spec.Guarded(c) {
 					needs[fn][c] = []string{fmt.Sprintf("%s@%s", funcKey(fn), g.p.Pos(instrPos(c)))}
 				}
